@@ -202,6 +202,20 @@ Theorem model_passes_tls_texts : forall cf cp kf kp le o caf cap ok o',
   prop_code (CTlsErr cf cp kf kp le o) = 0 /\ prop_code (CTlsCA caf cap ok o') = 0.
 Proof. intros; split; reflexivity. Qed.
 
+(* rendering after use: the model's configuration is unchanged, so what the renderings show of the opaque values
+   after the calls is what they showed before (no guard) *)
+Theorem model_passes_after_use : forall bs cfg before,
+  prop_code (CAfterUse bs (encA cfg) (encA (fold_left (fun c b => config_after (builder_of b) c) bs cfg)) (map A before) (map A before)) = 0.
+Proof.
+  intros bs cfg before. unfold prop_code. rewrite dec2_encA, map_dec_A.
+  assert (X : after_ok cfg (combine before before) = true).
+  { unfold after_ok. apply forallb_forall. intros [b a] I. apply forallb_forall. intros [k v] J. simpl.
+    assert (E : b = a).
+    { clear -I. induction before as [|x r IH]; simpl in I; [contradiction|]. destruct I as [I|I]; [now inversion I|now apply IH]. }
+    subst. destruct (distinctive v); [|reflexivity]. destruct (shown_b v a) eqn:E; reflexivity. }
+  now rewrite X.
+Qed.
+
 (* ---- non-vacuity ---------------------------------------------------------------------------------------------- *)
 (* the guard holds for a harness secret on a headers-like shape and paths of every renderer ... *)
 Example ex_frame_free :
